@@ -1142,7 +1142,19 @@ pub fn solver(rec: &mut Recorder, rng: &mut Rng, thorough: bool) {
                 }
             });
             match r {
-                Ok(ops) => { rec.count(if ops.is_some() { "solver_dec_solved" } else { "solver_dec_gave_up" }); rec.put(&format!("pisolve {k} {} {be}", list(&isis)), &opsdigest(&ops)); }
+                Ok(ops) => {
+                    rec.count(if ops.is_some() { "solver_dec_solved" } else { "solver_dec_gave_up" });
+                    rec.put(&format!("pisolve {k} {} {be}", list(&isis)), &opsdigest(&ops));
+                    // translation validation of this very run, independent of the solver model: the crate's own
+                    // operation vector must be a left-inverse certificate (theorem cert_sound), and a give-up
+                    // must be confirmed singular by the verified oracle
+                    if kp <= 130 && (small || it % 3 == 0) {
+                        let expect = if ops.is_some() { "cert=ok oracle=determined" } else { "gaveup oracle=singular" };
+                        let os = match &ops { Some(o) => ops_str(o), None => "none".to_string() };
+                        rec.put(&format!("opscert {k} {} {os}", list(&isis)), expect);
+                        rec.count(if ops.is_some() { "opscert_solved" } else { "opscert_gave_up" });
+                    }
+                }
                 Err(_) => { rec.impl_violation(format!("solver panics on a decoder-side system K={k} ({be})")); rec.put(&format!("pisolve {k} {} {be}", list(&isis)), "err"); }
             }
         }
